@@ -200,6 +200,9 @@ func (dist *GParetoDistribution) ImportConfig(config ConfigDistribution, t Scala
   if parameters, ok := config.GetParametersAsFloats(); !ok {
     return fmt.Errorf("invalid config file")
   } else {
+    if len(parameters) != 3 {
+      return fmt.Errorf("invalid config file")
+    }
     mu    := NewScalar(t, parameters[0])
     sigma := NewScalar(t, parameters[1])
     xi    := NewScalar(t, parameters[2])
